@@ -120,20 +120,20 @@ theorem admissible_served {G : Ghost} {s : St} {m : NS Name} {data : Nat → Con
 
 /-- With the accounting invariant, the batches served after a crash are a prefix of the acknowledged batches
     that contains the durable cover. -/
-theorem served_batches_of_acc {G : Ghost} {s : St} {m : NS Name} {data : Nat → Content} {A : List Nat} {c : Nat}
-    (hG : GWF G) (hN : NSOK G m) (hS : GStable G s) (hd : DataOK s data) (hacc : Acc A c G)
+theorem served_batches_of_acc (fixed : Bool) {G : Ghost} {s : St} {m : NS Name} {data : Nat → Content} {A : List Nat}
+    {c : Nat} (hG : GWF G) (hN : NSOK G m) (hS : GStable G s) (hd : DataOK s data) (hacc : Acc A c G)
     (hc0 : G.floor = none → c = 0) :
-    ∃ r, recover (resolve m data) = .ok r ∧ PartsComplete r ∧
+    ∃ r, recoverWith fixed (resolve m data) = .ok r ∧ PartsComplete r ∧
       ∃ k, c ≤ k ∧ k ≤ A.length ∧ (r.parts.flatMap (·.2)).Perm (A.take k) := by
   rcases treeOK_of_nsok hG hN hS hd with ⟨ms, hms, hab, _, hT⟩ | ⟨hfloor, hnone, hT0⟩
-  · obtain ⟨r, hr, hparts, _, hc, _⟩ := recover_treeOK hT
+  · obtain ⟨r, hr, hparts, _, hc, _⟩ := recoverWith_treeOK fixed hT
     refine ⟨r, hr, hc, ?_⟩
     obtain ⟨k, hck, hkA, hp⟩ := hacc ms hms hab _ (admissible_served hG hN hS hd ms hms hab)
     refine ⟨k, hck, hkA, ?_⟩
     rw [hparts]
     simpa [List.flatMap_map] using hp
   · -- no manifest at all: nothing is served, and nothing was durably published
-    obtain ⟨r, hr, hparts, _, _⟩ := recover_treeOK0 hT0
+    obtain ⟨r, hr, hparts, _, _⟩ := recoverWith_treeOK0 fixed hT0
     refine ⟨r, hr, by intro p hp; rw [hparts] at hp; simp at hp, 0, by rw [hc0 hfloor]; exact Nat.le_refl _,
       Nat.zero_le _, ?_⟩
     rw [hparts]; simp
